@@ -424,6 +424,10 @@ const BAD: &[Bad] = &[
     Bad { text: "1e", to_eof: false, follow: " " },
     Bad { text: "1.5e+", to_eof: false, follow: ";" },
     Bad { text: ".5E-", to_eof: false, follow: " " },
+    // an exponent marker without digits after a literal with a base prefix
+    Bad { text: "0b1e", to_eof: false, follow: " " },
+    Bad { text: "0o7e-", to_eof: false, follow: " " },
+    Bad { text: "0x1.5e", to_eof: false, follow: ";" },
     Bad { text: "OPENQASM x", to_eof: false, follow: "" },
     Bad { text: "OPENQASM 3.", to_eof: false, follow: ";" },
     Bad { text: "OPENQASM 3.0x", to_eof: false, follow: " " },
@@ -577,7 +581,7 @@ pub fn run(args: &[String]) {
     }
     // (e) number prefixes / exponents without digits, glued to whatever follows and precedes them (C11):
     //     the diagnostic must not depend on the neighbours
-    let heads = ["0b", "0B", "0o", "0O", "0x", "0X", "0b_", "0x_", "1e", "1E", "1.5e+", ".5E-", "2.e", "0e", "1e_", "00b", "1_e"];
+    let heads = ["0b", "0B", "0o", "0O", "0x", "0X", "0b_", "0x_", "1e", "1E", "1.5e+", ".5E-", "2.e", "0e", "1e_", "00b", "1_e", "0b1e", "0x1.5e", "0o7.e", "0B1E"];
     let tails = [".", ".5", ".e1", "e", "e3", "E-1", "E+", "_", "_1", "x", "im", "ns", "0", "1", "9", "a", "f", "g", "b1", "\"", "'", ";", " ", "..", "+1", "-1", "[", "us", "dt", "e+5", ".0im", "p", "z"];
     let fronts = ["", "", " ", "x=", "(", "-", "a", "1", "\"01\"", "//c\n", "[", "$"];
     let nadj = arg_u64(args, "--adjacent", 0);
